@@ -180,4 +180,14 @@ CLAIMED['C18'] = (
     'DESIGN.md 3/C18',
 )
 
+CLAIMED['C19'] = (
+    'ordering rules on the sampling loop (correction defined before the decrement, assigned inside the stratum), column-name table agreement between the writer and the model generator, main/second sample sort check (ast + CFG)',
+    'Decides the shape of the protocol: per stratum the correction ln(k/n) is defined from the requested and the actual size before the chosen alternative is set aside, both the '
+    'chosen alternative (inside its own stratum) and the drawn ones get that correction, draws are without replacement among the ids of the stratum after removing the chosen id, '
+    'the chosen row is first; the second sample is weighted n/k; every column the model generator reads follows the naming scheme of the writer, indices over the main sample never '
+    'use the MEV prefix and indices over the second sample always do; strata are (segment, size) pairs of the matching lists and invalid strata are refused. '
+    'Not decided: equality with the full model under full sampling (engine).',
+    'DESIGN.md 3/C19',
+)
+
 NOT_APPLICABLE = {f'C{i:02d}': WIP for i in range(1, 20)}
